@@ -58,6 +58,10 @@ LibSigs ==
   @@ ("slice.Append" :> Sig(1, <<Sl(SV(1)), Sl(SV(1))>>, Sl(SV(1))))
   @@ ("slice.PushLast" :> Sig(1, <<SV(1), Sl(SV(1))>>, Sl(SV(1))))
   @@ ("slice.Map" :> Sig(2, <<Fu(<<SV(1)>>, SV(2)), Sl(SV(1))>>, Sl(SV(2))))
+  @@ ("dict.Keys" :> Sig(2, <<Nm("dict.Dict", <<SV(1), SV(2)>>)>>, Sl(SV(1))))          \* pkg/dict: an external generic type
+  @@ ("dict.Values" :> Sig(2, <<Nm("dict.Dict", <<SV(1), SV(2)>>)>>, Sl(SV(2))))
+  @@ ("dict.ContainsKey" :> Sig(2, <<Nm("dict.Dict", <<SV(1), SV(2)>>), SV(1)>>, TBool))
+  @@ ("dict.Item" :> Sig(2, <<Nm("dict.Dict", <<SV(1), SV(2)>>), SV(1)>>, SV(2)))
   @@ ("slice.Filter" :> Sig(1, <<Fu(<<SV(1)>>, TBool), Sl(SV(1))>>, Sl(SV(1))))
   @@ ("slice.Fold" :> Sig(2, <<Fu(<<SV(2), SV(1)>>, SV(2)), SV(2), Sl(SV(1))>>, SV(2)))
   \* type IR1 = {A: int; B: string}   type IR2 = {Name: string; Vals: []int}   type IBox<T> = {Val: T; Tag: string}
